@@ -3,6 +3,7 @@ package props
 import (
 	"fmt"
 	"go/token"
+	"go/types"
 	"sort"
 	"strings"
 	"sync"
@@ -183,6 +184,32 @@ func strideRule(p *core.Program, r *core.Report, rule string, targets []strideTa
 				bad = fmt.Sprintf("offset argument %s of %s at %s is %s, not a coordinate boundary", c.Param, c.Callee.Name(), p.Pos(c.Call.Pos()), c.Val)
 			}
 		}
+		// copy width: a whole coordinate must not be squeezed through a fixed-size buffer
+		for _, c := range eng.Calls(f.fn) {
+			if eng.BuiltinName(c) != "copy" || !isFloatSlice(c.Common().Args[0].Type()) {
+				continue
+			}
+			fixed, strideWide := int64(-1), false
+			for _, a := range c.Common().Args {
+				if n, ok := fixedArrayLen(a); ok {
+					fixed = n
+					continue
+				}
+				if sl, ok := a.(*ssa.Slice); ok {
+					if m, cc, ok := si.SpanOf(sl); ok && m != 0 && cc == 0 {
+						strideWide = true
+					}
+				}
+				if mk, ok := a.(*ssa.MakeSlice); ok {
+					if sv, ok := si.Val[mk.Len]; ok && !sv.Top && sv.C == 0 && (sv.M != 0 || sv.Al) {
+						strideWide = true
+					}
+				}
+			}
+			if fixed >= 0 && strideWide {
+				bad = fmt.Sprintf("copy at %s moves a whole coordinate through a fixed buffer of %d ordinates: layouts with more dimensions (Layout(n), n > %d is valid) lose their trailing ordinates", p.Pos(c.Pos()), fixed, fixed)
+			}
+		}
 		key := short(f.fn)
 		switch {
 		case bad != "":
@@ -208,4 +235,21 @@ func slotOf(v eng.SV) string {
 		return fmt.Sprintf("k%+d", v.C)
 	}
 	return fmt.Sprintf("%d", v.C)
+}
+
+// fixedArrayLen: v is a slice of a fixed-size array (tmp[:] of `var tmp [N]float64`); returns N.
+func fixedArrayLen(v ssa.Value) (int64, bool) {
+	sl, ok := v.(*ssa.Slice)
+	if !ok {
+		return 0, false
+	}
+	pt, ok := sl.X.Type().Underlying().(*types.Pointer)
+	if !ok {
+		return 0, false
+	}
+	at, ok := pt.Elem().Underlying().(*types.Array)
+	if !ok {
+		return 0, false
+	}
+	return at.Len(), true
 }
